@@ -644,6 +644,13 @@ func (r *runner) execDetached(name string, args []string) {
 	if err := cb.SetJSON(true); err != nil {
 		r.fail("transport:"+name, err.Error())
 	}
+	// C gets the command too (a WHEREEVAL script in a live search is cached by
+	// the server; the three script caches must stay alike)
+	cc, err := r.tr.srv[2].Dial()
+	if err != nil {
+		r.giveUp(err.Error())
+	}
+	defer cc.Close()
 	nReplies := 1
 	if (name == "subscribe" || name == "psubscribe") && len(in) > 1 {
 		nReplies = len(in) - 1
@@ -654,6 +661,13 @@ func (r *runner) execDetached(name string, args []string) {
 	if err := cb.Send(args...); err != nil {
 		r.fail("transport:"+name, err.Error())
 	}
+	if err := cc.Send(args...); err != nil {
+		r.fail("transport:"+name, err.Error())
+	}
+	if _, err := cc.Recv(); err != nil && !(isQuit && errors.Is(err, io.EOF)) {
+		r.fail("resp-malformed:"+name, fmt.Sprintf("C/resp %s: %v", t38.CmdString(args), err))
+	}
+	defer drain(cc)
 	outcome := "ok"
 	for k := 0; k < nReplies; k++ {
 		vA, errA := ca.Recv()
